@@ -4,9 +4,13 @@ import json, os, subprocess, sys, time
 ALL_MA = "1,2,4,8,16"
 
 
-def arena_job(name, profile, prop, depth, devs, budget, tier, build="release", min_aligns=ALL_MA, max_level=3000000):
+def arena_job(name, profile, prop, depth, devs, budget, tier, build="release", min_aligns=ALL_MA, max_level=3000000, slab_mb=None):
     args = ["arena", "--profile", profile, "--prop", str(prop), "--depth", str(depth), "--devs", str(devs), "--budget-s", str(budget), "--tier", tier, "--min-aligns", min_aligns, "--max-level", str(max_level)]
-    return {"name": name, "bin": "bumpmc", "profile_build": build, "args": args, "replay_args": ["replay-arena", "--profile", profile, "--depth", str(depth)]}
+    rargs = ["replay-arena", "--profile", profile, "--depth", str(depth)]
+    if slab_mb:
+        args += ["--slab-mb", str(slab_mb)]
+        rargs += ["--slab-mb", str(slab_mb)]
+    return {"name": name, "bin": "bumpmc", "profile_build": build, "args": args, "replay_args": rargs}
 
 
 def grid_job(name, kind, prop, tier, budget=120, slab_mb=8, build="release", threads=None):
@@ -43,6 +47,7 @@ def plan(pid, tier):
             sc += [{"name": "stateright-crosscheck-core-d3", "bin": "xcheck", "args": ["--profile", "core", "--depth", "3"]}, {"name": "stateright-crosscheck-reset-d3", "bin": "xcheck", "args": ["--profile", "reset", "--depth", "3"]},
                    {"name": "stateright-crosscheck-allocapi-d3", "bin": "xcheck", "args": ["--profile", "allocapi", "--depth", "3"]}, {"name": "stateright-crosscheck-limit-d3", "bin": "xcheck", "args": ["--profile", "limit", "--depth", "3"]}]
         jobs.append(arena_job("deep-narrow-d5" if q else "deep-narrow-d6", "deep", 1, 5 if q else 6, 1, 40 if q else 900, tier, min_aligns="1,8,16"))
+        jobs.append(arena_job("scale-d2" if q else "scale-d3", "scale", 1, 2 if q else 3, 1, 40 if q else 600, tier, min_aligns="1,16", slab_mb=16))
         return {"level": "model_checking", "jobs": jobs, "owns_crashes": True, "rule": RULE_ARENA, "assumptions": ARENA_ASSUME, "selfchecks": sc,
                 "bounds": {"depth": 3 if q else 4, "deviations": 1 if q else 2, "min_align": [1, 2, 4, 8, 16]}, "build_profiles": ("release",) if q else ("release", "dbg")}
     if pid == "C02":
@@ -54,28 +59,34 @@ def plan(pid, tier):
     if pid == "C03":
         jobs = [arena_job("histories-ledger", "ledger", 3, 3, 1, 45, tier)] if q else [arena_job("histories-ledger-d3-dev2", "ledger", 3, 3, 2, 300, tier), arena_job("histories-ledger-d4", "ledger", 3, 4, 1, 500, tier, min_aligns="1,8,16")]
         jobs.append(arena_job("deep-narrow-d5" if q else "deep-narrow-d6", "deep", 3, 5 if q else 6, 1, 40 if q else 900, tier, min_aligns="1,8,16"))
+        jobs.append(arena_job("scale-d2" if q else "scale-d3", "scale", 3, 2 if q else 3, 1, 40 if q else 600, tier, min_aligns="1,16", slab_mb=16))
         return {"level": "model_checking", "jobs": jobs, "owns_crashes": True, "rule": RULE_ARENA, "assumptions": ARENA_ASSUME, "bounds": {"depth": 3 if q else 4, "deviations": 1 if q else 2}}
     if pid == "C04":
         jobs = [arena_job("histories-core", "core", 4, 3, 1, 45 if q else 600, tier), arena_job("layerA-every-offset", "layera", 4, 3, 1, 40, tier), grid_job("ctor-matrix", "ctor", 4, tier), arena_job("allocator-api-sweep", "apisweep", 4, 5, 0, 40, tier)]
         if not q:
             jobs = [arena_job("histories-core-d3-dev2", "core", 4, 3, 2, 300, tier), arena_job("histories-core-d4", "core", 4, 4, 1, 500, tier, min_aligns="2,8,16"),
                     arena_job("layerA-every-offset-dev2", "layera", 4, 3, 2, 400, tier), grid_job("ctor-matrix", "ctor", 4, tier), grid_job("ctor-matrix-dbg", "ctor", 4, tier, build="dbg"), arena_job("allocator-api-sweep-dev1", "apisweep", 4, 5, 1, 600, tier)]
+        jobs.append(arena_job("scale-d2" if q else "scale-d3", "scale", 4, 2 if q else 3, 1, 40 if q else 600, tier, min_aligns="1,16", slab_mb=16))
         return {"level": "model_checking", "jobs": jobs, "owns_crashes": False, "rule": RULE_ARENA, "assumptions": ARENA_ASSUME, "bounds": {"depth": 3 if q else 4, "deviations": 1 if q else 2},
                 "build_profiles": ("release",) if q else ("release", "dbg")}
     if pid == "C06":
         jobs = [arena_job("histories-reset", "reset", 6, 3, 1, 45, tier)] if q else [arena_job("histories-reset-d4", "reset", 6, 4, 1, 500, tier), arena_job("histories-reset-d3-dev2", "reset", 6, 3, 2, 200, tier)]
         jobs.append(arena_job("deep-narrow-d5" if q else "deep-narrow-d6", "deep", 6, 5 if q else 6, 1, 40 if q else 900, tier, min_aligns="1,8,16"))
+        jobs.append(arena_job("scale-d2" if q else "scale-d3", "scale", 6, 2 if q else 3, 1, 40 if q else 600, tier, min_aligns="1,16", slab_mb=16))
         return {"level": "model_checking", "jobs": jobs, "owns_crashes": False, "rule": RULE_ARENA, "assumptions": ARENA_ASSUME, "bounds": {"depth": 3 if q else 4, "deviations": 1 if q else 2}}
     if pid == "C07":
         jobs = [arena_job("histories-limit", "limit", 7, 3, 1, 45, tier), arena_job("histories-limit-d4", "limit", 7, 4, 1, 45, tier, min_aligns="1,16")] if q else [arena_job("histories-limit-d4", "limit", 7, 4, 1, 500, tier), arena_job("histories-limit-d3-dev2", "limit", 7, 3, 2, 200, tier)]
         jobs.append(arena_job("deep-narrow-d5" if q else "deep-narrow-d6", "deep", 7, 5 if q else 6, 1, 40 if q else 900, tier, min_aligns="1,8,16"))
+        jobs.append(arena_job("scale-d2" if q else "scale-d3", "scale", 7, 2 if q else 3, 1, 40 if q else 600, tier, min_aligns="1,16", slab_mb=16))
         return {"level": "model_checking", "jobs": jobs, "owns_crashes": False, "rule": RULE_ARENA, "assumptions": ARENA_ASSUME, "bounds": {"depth": 3 if q else 4, "deviations": 1 if q else 2}}
     if pid == "C08":
         jobs = [arena_job("histories-core", "core", 8, 3, 1, 45, tier)] if q else [arena_job("histories-core-d3-dev2", "core", 8, 3, 2, 300, tier), arena_job("histories-ledger-d4", "ledger", 8, 4, 1, 400, tier, min_aligns="1,16"), arena_job("histories-limit-d4", "limit", 8, 4, 1, 300, tier)]
         jobs.append(arena_job("deep-narrow-d5" if q else "deep-narrow-d6", "deep", 8, 5 if q else 6, 1, 40 if q else 900, tier, min_aligns="1,8,16"))
+        jobs.append(arena_job("scale-d2" if q else "scale-d3", "scale", 8, 2 if q else 3, 1, 40 if q else 600, tier, min_aligns="1,16", slab_mb=16))
         return {"level": "model_checking", "jobs": jobs, "owns_crashes": False, "rule": RULE_ARENA, "assumptions": ARENA_ASSUME, "bounds": {"depth": 3 if q else 4, "deviations": 1 if q else 2}}
     if pid == "C09":
         jobs = [arena_job("prefix1-x-final-try", "fallible", 9, 2, 2, 45, tier)] if q else [arena_job("prefix2-x-final-try", "fallible", 9, 3, 2, 900, tier), arena_job("prefix1-dbg", "fallible", 9, 2, 2, 200, tier, build="dbg")]
+        jobs.append(arena_job("scale-d2" if q else "scale-d3", "scale", 9, 2 if q else 3, 1, 40 if q else 600, tier, min_aligns="1,16", slab_mb=16))
         return {"level": "fault_enumeration", "jobs": jobs, "owns_crashes": True, "rule": RULE_ARENA + "; faults = up to 2 allocator-answer deviations per final operation, each at any request index k: refuse request k, refuse request k and every later one (fail everything), refuse every request above 2^12 bytes from request k on (thorough: 2^9, 2^12, 2^16), grant at valuation 12; forced refusal of over-cap / over-aligned requests, allocation limits", "assumptions": ARENA_ASSUME,
                 "bounds": {"prefix_depth": 1 if q else 2, "deviations": 2}, "build_profiles": ("release",) if q else ("release", "dbg")}
     if pid == "C10":
@@ -83,9 +94,11 @@ def plan(pid, tier):
             arena_job("histories-core-d3-dev2", "core", 10, 3, 2, 300, tier), arena_job("histories-core-d4", "core", 10, 4, 1, 500, tier, min_aligns="1,4,16"),
             arena_job("uniform-exactness-d6", "uniform", 10, 6, 1, 500, tier), arena_job("uniform-exactness-d5-dev2", "uniform", 10, 5, 2, 300, tier)]
         jobs.append(arena_job("deep-narrow-d5" if q else "deep-narrow-d6", "deep", 10, 5 if q else 6, 1, 40 if q else 900, tier, min_aligns="1,8,16"))
+        jobs.append(arena_job("scale-d2" if q else "scale-d3", "scale", 10, 2 if q else 3, 1, 40 if q else 600, tier, min_aligns="1,16", slab_mb=16))
         return {"level": "model_checking", "jobs": jobs, "owns_crashes": False, "rule": RULE_ARENA, "assumptions": ARENA_ASSUME, "bounds": {"depth": 3 if q else 4, "deviations": 1 if q else 2}}
     if pid == "C11":
         jobs = [arena_job("prefix2-x-initialisers", "init", 11, 3, 1, 45, tier)] if q else [arena_job("prefix3-x-initialisers", "init", 11, 4, 1, 600, tier), arena_job("prefix2-dev2", "init", 11, 3, 2, 300, tier)]
+        jobs.append(arena_job("scale-d2" if q else "scale-d3", "scale", 11, 2 if q else 3, 1, 40 if q else 600, tier, min_aligns="1,16", slab_mb=16))
         return {"level": "model_checking", "jobs": jobs, "owns_crashes": False, "rule": RULE_ARENA, "assumptions": ARENA_ASSUME, "bounds": {"depth": 3 if q else 4, "deviations": 1 if q else 2}}
     if pid == "C12":
         jobs = [arena_job("allocator-api", "allocapi", 12, 3, 1, 45, tier), arena_job("allocator-api-sweep", "apisweep", 12, 5, 0, 40, tier), coll_job("api2-vec-vs-global-allocator", "vec", 12, 3, 4, tier, 40, container="api2")] if q else [coll_job("api2-vec-vs-global-allocator", "vec", 12, 4, 5, tier, 600, container="api2"), arena_job("allocator-api-d4", "allocapi", 12, 4, 1, 700, tier, min_aligns="1,8,16"), arena_job("allocator-api-d3-dev2", "allocapi", 12, 3, 2, 300, tier), arena_job("allocator-api-sweep-dev1", "apisweep", 12, 5, 1, 600, tier)]
